@@ -187,15 +187,17 @@ impl<T: ProgramAccount + BorshSerialize + BorshDeserialize> BorshAccount<T> {
     ///
     /// This is called during `AccountSetCleanup` and can be useful to call manually if you need the data to be serialized prior to a CPI.
     pub fn serialize(&mut self) -> Result<()> {
+        let Some(data) = &self.data else {
+            return Ok(());
+        };
         if self.is_writable()
             && self.info.data_len() > size_of::<OwnerProgramDiscriminant<T>>()
             && self.owner_pubkey() == T::OwnerProgram::ID
         {
-            let new_size = size_of::<OwnerProgramDiscriminant<T>>() + object_length(&self.data)?;
+            let new_size = size_of::<OwnerProgramDiscriminant<T>>() + object_length(data)?;
             self.info.resize(new_size)?;
             let mut account_data = self.info.account_data_mut()?;
-            self.data
-                .serialize(&mut &mut account_data[size_of::<OwnerProgramDiscriminant<T>>()..])?;
+            data.serialize(&mut &mut account_data[size_of::<OwnerProgramDiscriminant<T>>()..])?;
         }
         Ok(())
     }
